@@ -301,6 +301,14 @@ func verifHarnessCrash() {
 			verifAssert(b.Put(kp.keys[len(kp.keys)-1], v) == nil, id+".bput-after-recovery-err")
 			verifAssert(b.Commit() == nil, id+".commit-after-recovery-err")
 			verifReach("batch-after-recovery")
+		} else if verifParam("aftermerge") == 1 {
+			// an interrupted merge is followed by a delete and ANOTHER merge: leftovers of the first must not leak in
+			verifAssert(db2.Delete(kp.keys[0]) == nil, id+".delete-after-recovery-err")
+			if db2.Merge() == nil {
+				verifReach("merge-after-recovery")
+			}
+			_, gerr := db2.Get(kp.keys[0])
+			verifAssert(gerr == ErrKeyNotFound, id+".deleted-key-visible-after-second-merge")
 		} else {
 			verifAssert(db2.Put(kp.keys[0], v) == nil, id+".put-after-recovery-err")
 		}
